@@ -9,6 +9,7 @@ import typing
 import h11
 import h2.config
 import h2.connection
+import h2.errors
 import h2.events
 import h2.exceptions
 import h2.settings
@@ -175,7 +176,7 @@ class HTTP2Connection(ConnectionInterface):
             with ShieldCancellation():
                 kwargs = {"stream_id": stream_id}
                 with Trace("response_closed", logger, request, kwargs):
-                    self._response_closed(stream_id=stream_id)
+                    self._response_closed(request, stream_id=stream_id)
 
             if isinstance(exc, h2.exceptions.ProtocolError):
                 # One case where h2 can raise a protocol error is when a
@@ -420,10 +421,29 @@ class HTTP2Connection(ConnectionInterface):
                     self._max_streams_semaphore.acquire()
                     self._max_streams -= 1
 
-    def _response_closed(self, stream_id: int) -> None:
+    def _response_closed(self, request: Request, stream_id: int) -> None:
+        # If the response is closed before the stream has ended, then we need
+        # to reset the stream. Otherwise it stays open, and keeps counting
+        # towards the maximum number of concurrent streams.
+        try:
+            self._h2_state.reset_stream(
+                stream_id, error_code=h2.errors.ErrorCodes.CANCEL
+            )
+            stream_was_reset = True
+        except h2.exceptions.ProtocolError:
+            # The stream has already ended, or has never been opened.
+            stream_was_reset = False
+
         self._max_streams_semaphore.release()
         del self._events[stream_id]
         self._request_closed()
+
+        if stream_was_reset:
+            try:
+                self._write_outgoing_data(request)
+            except Exception:
+                # The connection has failed, which is dealt with elsewhere.
+                pass
 
     def _request_closed(self) -> None:
         # The connection is in use for as long as it has requests in flight.
@@ -625,4 +645,6 @@ class HTTP2ConnectionByteStream:
             self._closed = True
             kwargs = {"stream_id": self._stream_id}
             with Trace("response_closed", logger, self._request, kwargs):
-                self._connection._response_closed(stream_id=self._stream_id)
+                self._connection._response_closed(
+                    self._request, stream_id=self._stream_id
+                )
